@@ -2,6 +2,7 @@ package main
 
 import (
 	"fmt"
+	"os"
 	"go/token"
 	"go/types"
 	"sort"
@@ -332,12 +333,19 @@ func (fr *Frame) discoverModified(h *ssa.BasicBlock, li *loopInfo, stE *State, p
 	}
 	oldDry := fr.dryHeader
 	fr.dryHeader = h
+	root0 := fr.root()
+	crLen := map[string]int{}
+	for k, v := range root0.callResults {
+		crLen[k] = len(v)
+	}
+	nRetained := len(e.retained)
 
 	st := stE.clone()
 	for _, phi := range phis {
 		fr.havocVal(phi, st)
 	}
 	var states []*State
+	prevDryStates := fr.dryStates
 	fr.dryStates = &states
 	// run the loop blocks in RPO
 	var blocks []*ssa.BasicBlock
@@ -377,7 +385,19 @@ func (fr *Frame) discoverModified(h *ssa.BasicBlock, li *loopInfo, stE *State, p
 			}
 		}
 	}
-	fr.dryStates = nil
+	for k, v := range root0.callResults {
+		if n, ok := crLen[k]; ok {
+			root0.callResults[k] = v[:n]
+		} else {
+			delete(root0.callResults, k)
+		}
+	}
+	e.retained = e.retained[:nRetained]
+	// modifications found in a nested loop are modifications of the enclosing loop being explored too
+	if prevDryStates != nil {
+		*prevDryStates = append(*prevDryStates, states...)
+	}
+	fr.dryStates = prevDryStates
 	fr.dryHeader = oldDry
 	// restore
 	fr.vals = sv
@@ -398,6 +418,9 @@ func (fr *Frame) discoverModified(h *ssa.BasicBlock, li *loopInfo, stE *State, p
 		}
 	}
 	sort.Strings(names)
+	if os.Getenv("GOVC_DEBUG_LOOPS") != "" && e.dry == 0 {
+		fmt.Fprintf(os.Stderr, "loop %d of %s modifies: %v\n", li.ord, fr.key, names)
+	}
 	return names
 }
 
